@@ -46,8 +46,8 @@ def partition_of(case, order, exe_hook):
 def run(tier, seed, replay=None, variants=None, prop='C05', prefixes=('C05_',), rule=None, extra_violations=None):
     rng = random.Random(seed)
     gate = cm.proof_gate(list(prefixes))
-    n = 66 if tier == 'quick' else 660
-    kinds = ['flat', 'nested', 'multi', 'nested_big', 'nested', 'unsized', 'split', 'ltbound', 'tworoots', 'payload', 'combo']
+    n = 72 if tier == 'quick' else 720
+    kinds = ['flat', 'nested', 'multi', 'nested_big', 'nested', 'unsized', 'split', 'ltbound', 'tworoots', 'payload', 'combo', 'dupcols']
     if replay:
         rp = json.load(open(replay))
         for k in ('program_a', 'program_b'):
